@@ -719,9 +719,9 @@ impl Check for C17 {
         let build = if ctx.shard.is_multiple_of(2) { Build::Debug } else { Build::Release };
         let t = ctx.tier;
         // quick: 38 runs per shard = 608 in total; thorough: 940 per shard = 15 040
-        run_stage(ctx, "short", t.pick(16, 400), Stage::Short, build);
-        run_stage(ctx, "long-first", t.pick(8, 180), Stage::LongFirst, build);
-        run_stage(ctx, "mixed", t.pick(14, 360), Stage::Mixed, build);
+        run_stage(ctx, "short", t.pick(120, 1200), Stage::Short, build);
+        run_stage(ctx, "long-first", t.pick(50, 500), Stage::LongFirst, build);
+        run_stage(ctx, "mixed", t.pick(100, 1000), Stage::Mixed, build);
     }
 
     fn replay(&self, _ctx: &mut ShardCtx, _stage: &str, input: &J) -> Outcome {
